@@ -87,8 +87,13 @@ func Spec(tier string, seed int64, workers int) progeng.Spec {
 	sp.Variants = []progeng.Variant{{Name: "D"}, {Name: "R", Tags: "yieldr", Tapes: tapes}}
 	sp.Generate = func(seed int64, i int) *progeng.Prog {
 		r := rng.New(seed, "C02", "prog", i)
+		if i%4 == 3 {
+			// call-chain programs: every link kind between main and a yield atom, callers declared before callees
+			cp := seqgen.GenerateChains(r, 1+r.Intn(3))
+			return &progeng.Prog{Files: cp.Files, Lib: "seqlib", Features: cp.FeatureList(), Clean: true, Atoms: cp.Atoms}
+		}
 		sw := rng.New(seed, "C02", "swarm", i/10)
-		o := seqgen.Opts{Funcs: 2 + sw.Intn(4), Stmts: 6 + sw.Intn(10), Depth: 2 + sw.Intn(2), Clean: i%8 != 7, Goroutine: sw.Chance(1, 2), Unwind: sw.Chance(1, 4),
+		o := seqgen.Opts{Funcs: 2 + sw.Intn(4), Stmts: 6 + sw.Intn(10), Depth: 2 + sw.Intn(2), Clean: i%8 != 6, Goroutine: sw.Chance(1, 2), Unwind: sw.Chance(1, 4),
 			Weights: map[string]int{"dynamic": 10 + sw.Intn(60), "panicky": sw.Intn(70)}}
 		sp := seqgen.Generate(r, o)
 		p := &progeng.Prog{Files: sp.Files, Lib: "seqlib", Features: sp.FeatureList(), Clean: sp.Clean, Atoms: sp.Atoms}
